@@ -26,9 +26,9 @@ func init() {
 		Assumptions: []string{"finite values; unbiased variance asserted for n >= 2 only", "1e-9 relative tolerance (plus the cancellation term 1e-12*max|x|^2 for variances) between summation orders"},
 		Cases: func(tier string) int {
 			if tier == "quick" {
-				return 64
+				return 3200
 			}
-			return 640
+			return 32000
 		},
 		Run:      runC19,
 		Required: []string{"series.unsorted", "series.empty", "series.single", "series.with_ties", "experiments", "experiments.partly_solved", "experiments.no_trials", "trials.unsolved", "trials.empty"},
